@@ -29,6 +29,7 @@ type Sock struct {
 	// inbound stream: bytes the peer has sent and that the kernel still holds
 	Pending []byte
 	Roff    int
+	Writable bool // ghost: EPOLLOUT was just reported for this socket, the next write accepts at least one byte
 	Fin     bool // orderly close by the peer behind the pending bytes
 	InEdge  bool // ghost: new data arrived since the last EAGAIN => an ET edge will be reported again
 	ReadErr unix.Errno
@@ -223,7 +224,7 @@ func writeBudget(s *Sock, fd int, want int, call string) (int, unix.Errno) {
 		vAssert("C18.no_busy_retry_after_eagain", s.EagainStreak <= 2)
 		return -1, unix.EAGAIN
 	}
-	if s.Full && !vNondetBool("write.space_freed") {
+	if s.Full && !s.Writable && !vNondetBool("write.space_freed") {
 		// the socket buffer is still full: writing again before the kernel reports writability is a busy retry
 		s.EagainStreak++
 		vAssert("C18.no_busy_retry_after_eagain", s.EagainStreak <= 2)
@@ -235,7 +236,12 @@ func writeBudget(s *Sock, fd int, want int, call string) (int, unix.Errno) {
 		return want, 0
 	}
 	n := vNondetInt("write.n")
-	vAssume(0 <= n && n <= want)
+	lo := 0
+	if s.Writable {
+		// the kernel has just reported the socket writable (EPOLLOUT): at least one byte fits
+		lo, s.Writable = 1, false
+	}
+	vAssume(lo <= n && n <= want)
 	if n == 0 {
 		s.Full = true
 		s.EagainStreak++
